@@ -747,3 +747,85 @@ def run_ownedref(prog, ctx=None):
                    "" if bad is None else "`%s` hands the reference held in %s to the object, and `%s` releases it through the local afterwards: the member dangles, and a teardown of the object releases the referent a second time" % (
                        norm(show(sn, f)), vn, norm(show(bad, f))[:60]))
     return res
+
+
+def run_detachrelease(prog, ctx=None):
+    """DETACHRELEASE: a function installed in the `detach` slot of a buffer interface table is handed the caller's reference
+    to the object.  Where it answers with another object (a return value that is neither null nor the argument / a member of
+    it), the caller's reference to the old one is consumed: every path to such a return runs a release of the argument
+    (mpt_refcount_lower on its counter, free() of it, or an unref call that is handed it).  Without it the old buffer's count
+    stays one too high for ever: its remaining holders see it shared, copy on every write, and it is never destroyed."""
+    res = Result("DETACHRELEASE")
+    seen = set()
+    for g, u, rn, slot, fn, qn in vtables(prog):
+        if slot.split(".")[-1] != "detach" or fn is None or fn.nocfg or fn.key() in seen:
+            continue
+        seen.add(fn.key())
+        f = fn
+        if not f.params:
+            continue
+        alias = {f.params[0]["id"]}
+        changed = True
+        while changed:
+            changed = False
+            for b, i, n in f.walk_all():
+                pairs = []
+                if n.get("k") == "bin" and n.get("op") == "=":
+                    l = strip(n["a"], lvalue_to_rvalue=False)
+                    if l.get("k") == "ref" and "id" in l["d"]:
+                        pairs.append((l["d"]["id"], n["b"]))
+                elif n.get("k") == "decl":
+                    for v in n["vars"]:
+                        if v.get("init") is not None:
+                            pairs.append((v["id"], v["init"]))
+                for vid, rhs in pairs:
+                    if vid in alias:
+                        continue
+                    # the same object: pointer arithmetic / casts / member address over an alias, no call and no load through it
+                    ok = False
+                    calls = False
+                    for m in walk(rhs):
+                        if m.get("k") == "call":
+                            calls = True
+                        if m.get("k") == "ref" and m["d"].get("id") in alias:
+                            ok = True
+                    r = strip(rhs, all_casts=True)
+                    if ok and not calls and not (r.get("k") == "mem" and f.T(r.get("t")).get("k") == "ptr" and not _addr_of(rhs)):
+                        alias.add(vid)
+                        changed = True
+
+        def rooted(e):
+            return any(m.get("k") == "ref" and m["d"].get("id") in alias for m in walk(e))
+
+        release = set()
+        for b, i, e in f.elements():
+            for n in walk_own(e):
+                if n.get("k") != "call" or not n.get("args"):
+                    continue
+                nm = callee_name(n) or ""
+                ce = strip(n["callee"], all_casts=True) if n.get("callee") else {}
+                if ce.get("k") == "mem":
+                    nm = ce.get("f", "")
+                if (nm == "mpt_refcount_lower" or nm == "free" or nm.endswith("unref")) and rooted(n["args"][0]):
+                    release.add(b.id)
+        reach = f.reachable_from(f.entry, avoid=release)
+        n_new = 0
+        for b, i, e in f.elements():
+            if e.get("k") != "ret" or e.get("e") is None:
+                continue
+            if cval(e["e"]) == 0 or rooted(e["e"]):
+                continue
+            n_new += 1
+            bad = b.id in reach
+            res.ob("%s:%s" % (f.qn, norm(show(e, f))), not bad, f, e.get("l") or f.line,
+                   "" if not bad else "`%s` answers the detach with another object on a path that never released the caller's reference to the "
+                   "argument (no mpt_refcount_lower / free / unref of it): the old object's count stays one too high" % norm(show(e, f)))
+        res.count("detach implementations")
+        if not n_new:
+            res.notes.append("%s: answers with the argument or refuses only" % f.qn)
+    return res
+
+
+def _addr_of(e):
+    s = strip(e, all_casts=True)
+    return s.get("k") == "un" and s.get("op") == "&"
